@@ -192,6 +192,9 @@ func H_escape(p []int) {
 	if n > 0 && validUTF8(Q) {
 		vAssert(extra == 0, "C10/no-tail-on-valid")
 	}
+	if len(Q) > 0 {
+		vAssert(vOr(vNot(truncatedTail(Q)), extra == 1), "C10/tail-mark-after-truncated-sequence")
+	}
 	// envelopes deleted: P's safe text, then (safe mode) escaped Q or (unsafe) LFs of Q
 	dg := delEnv(got)
 	if brk {
@@ -203,6 +206,32 @@ func H_escape(p []int) {
 	vCover(n > 0 && Q[0] == '\n', "lf-first")
 	vCover(n > 0 && Q[n-1] == '\n', "lf-last")
 	vCover(extra == 1, "tail-added")
+}
+
+// truncatedTail: b ends in a multi-byte sequence that is cut short (a lead
+// byte, or a lead byte and some of its continuation bytes, at the very
+// end).  One term; no branching on symbolic bytes.
+func truncatedTail(b []byte) bool {
+	n := len(b)
+	r := false
+	second := func(l, c byte) bool {
+		// c is acceptable as the second byte after lead l (l in E0..F4)
+		lo, hi := vIteByte(l == 0xE0, 0xA0, vIteByte(l == 0xF0, 0x90, 0x80)), vIteByte(l == 0xED, 0x9F, vIteByte(l == 0xF4, 0x8F, 0xBF))
+		return vAnd(c >= lo, c <= hi)
+	}
+	if n >= 1 {
+		c := b[n-1]
+		r = vOr(r, vAnd(c >= 0xC2, c <= 0xF4))
+	}
+	if n >= 2 {
+		l, c := b[n-2], b[n-1]
+		r = vOr(r, vAnd(vAnd(l >= 0xE0, l <= 0xF4), second(l, c)))
+	}
+	if n >= 3 {
+		l, c1, c2 := b[n-3], b[n-2], b[n-1]
+		r = vOr(r, vAnd(vAnd(vAnd(l >= 0xF0, l <= 0xF4), second(l, c1)), vAnd(c2 >= 0x80, c2 <= 0xBF)))
+	}
+	return r
 }
 
 func redactMode(m int) buffer.OutputMode { return buffer.OutputMode(m) }
@@ -242,6 +271,9 @@ func H_escbytes(p []int) {
 	vAssert(extra == 0 || (extra == 1 && sg[len(sg)-1] == '?'), "C10/escapebytes-strip-tail")
 	if len(b0) > 0 && validUTF8(b0) {
 		vAssert(extra == 0, "C10/escapebytes-no-tail-on-valid")
+	}
+	if len(b0) > 0 {
+		vAssert(vOr(vNot(truncatedTail(b0)), extra == 1), "C10/escapebytes-tail-mark-after-truncated-sequence")
 	}
 	// redacted form: only redacted markers and the line feeds of b
 	r := redactRef(out)
